@@ -145,6 +145,17 @@ inline void InputPcapJumbo::recvPacket()
 {
   while (!to_exit_recv_)
   {
+    if (pcap_ == NULL)  // the file was read to its end in an earlier session: start over.
+    {
+      char errbuf[PCAP_ERRBUF_SIZE];
+      pcap_ = pcap_open_offline(input_param_.pcap_path.c_str(), errbuf);
+      if (pcap_ == NULL)
+      {
+        cb_excep_(Error(ERRCODE_PCAPWRONGPATH));
+        break;
+      }
+    }
+
     struct pcap_pkthdr* header;
     const uint8_t* pkt_data;
     int ret = pcap_next_ex(pcap_, &header, &pkt_data);
